@@ -19,6 +19,8 @@ FLAGS = re.UNICODE | re.DOTALL
 def actual_type(kind, values):
     """The tdda type the documentation assigns to the column."""
     t = F.tdda_type(kind)
+    if kind == 'onum':
+        return 'string'
     if kind in ('obool', 'odate', 'odatetime', 'ostr'):
         # an object column's type is that of its values; with no non-null
         # value there is no way to tell, and tdda says 'string'
@@ -28,11 +30,13 @@ def actual_type(kind, values):
 
 
 def parse_date_bound(s):
-    """Date-valued bounds are written as YYYY-MM-DD[ HH:MM:SS[.ffffff]]."""
+    """Date-valued bounds are written as YYYY-MM-DD[ HH:MM:SS[.ffffff]];
+    the loader also reads '/' for '-', 'T' for the space and one-digit
+    month, day and hour."""
     if isinstance(s, (datetime.datetime, datetime.date)):
         return s
-    m = re.match(r'^(\d{4})-(\d\d)-(\d\d)(?:[ T](\d\d):(\d\d):(\d\d)'
-                 r'(?:\.(\d{6}))?)?$', s)
+    m = re.match(r'^(\d{4})[-/](\d\d?)[-/](\d\d?)'
+                 r'(?:[ T](\d\d?):(\d\d):(\d\d)(?:\.(\d{6}))?)?$', s)
     if not m:
         raise ValueError('not a date bound: %r' % (s,))
     g = [int(x) for x in m.groups() if x is not None]
